@@ -616,6 +616,14 @@ class Interp:
         return And(*fs)
 
     def emit(self, sink, item):
+        for i_ in range(len(self.ctx) - 1, -1, -1):
+            if self.ctx[i_][0] == "act":
+                dead_ = getattr(self.ctx[i_][1], "dead", False)
+                if dead_ is not False:
+                    here_ = self.cur_cond(i_ + 1)
+                    if here_ is False or (len(F.atoms(And(here_, dead_))) <= 12 and not F.counterexamples(here_, dead_, "implies")):
+                        return          # written only after a definite failure: not part of any artefact
+                break
         wr = self.ctx[sink.depth:]
         for e in reversed(wr):
             if e[0] == "cond":
@@ -1377,7 +1385,10 @@ class Interp:
                         continue
                     act.fails.append((cc, x, n))
                     self.fails.append((And(And(*outer), cc), x, n, self.cur_fn()))
-                    act.ret = Or(act.ret, cc) if False else act.ret
+                    if not isinstance(v0, PhiV) and c is True:
+                        # `Err(e)?` on a value that is an error on *every* path reaching it: nothing after it runs, and (as
+                        # for `return Err(..)`) no artefact exists on these paths -- what would be written there is dropped
+                        act.dead = Or(getattr(act, "dead", False), cc)
                     act.exits = Or(getattr(act, "exits", False), cc)
         return Via("?", self._unwrap_ok(v))
 
